@@ -45,6 +45,8 @@ ENTRIES = [
     # failed_time_next():  shift = min(failed_counter - 1, uint32_t(CAP));  min((BASE << shift) * 1s, min_min_interval)
     ("trk_backoff_shift_cap", _C, r"failed_counter - 1, uint32_t\((\d+)\)\)", "Z"),
     ("trk_backoff_base", _C, r"std::min\(\((\d+) << shift\) \* 1s, min_min_interval\)", "Z"),
+    # TrackerList::send_scrape(): no scrape within N s of the last one
+    ("trk_scrape_min_gap", "src/tracker/tracker_list.cc", r"scrape_time_last\(\)\) \+ (\d+)s;", "Z"),
     # tracker_next_timeout_promiscuous(): max(min_interval, FLOOR s)
     ("trk_promisc_floor", _T, r"std::max\(tracker_state\.min_interval\(\), (\d+)s\)", "Z"),
     # send_start_event(): second usable tracker -> promiscuous mode after N seconds
